@@ -291,4 +291,32 @@ inductive SendKind where
   | unknown
 deriving DecidableEq, Repr, Inhabited
 
+/-- transform.cleanupOutputs: the ways one iteration of the per-output loop can end -/
+inductive CleanupExit where
+  | notOwned       -- `out.Owner() != ctrl.Name()` → continue
+  | touched        -- not tearing down and in touchedOutputIDs → continue
+  | teardownErr    -- Teardown returned an error → continue
+  | notReady       -- Teardown said not ready → continue
+  | destroyErr     -- Destroy returned an error (any exit taken under `err != nil`)
+  | destroyOk      -- Destroy succeeded: the end of the loop body
+deriving DecidableEq, Repr, Inhabited
+
+/-- transform: where an input is entered into `runState.removeInputFinalizers` -/
+inductive ReleaseSource where
+  | tornDownFinRemovalOk   -- only in reconcileTearingDownInput, after the finalizer is present and finalizerRemovalFunc returned nil
+  | unknown
+deriving DecidableEq, Repr, Inhabited
+
+/-- cleanup.combinedHandler.FinalizerRemoval -/
+inductive CombineRule where
+  | firstNonNil            -- returns the first non-nil handler result; nil when every handler returned nil
+  | unknown
+deriving DecidableEq, Repr, Inhabited
+
+/-- cleanup.Controller.processInput, tearing-down input carrying the finalizer: what follows the handler's result -/
+inductive CleanupReleaseRule where
+  | onlyOnNil              -- SkipReconcile-tagged → return nil; other error → return it; nil → RemoveFinalizer
+  | unknown
+deriving DecidableEq, Repr, Inhabited
+
 end Cosi.Gen
